@@ -11,6 +11,11 @@
 (* of all live matrices intact, no free of a non-live pointer), and (3) the *)
 (* specification's invariants hold in the new state.  After a rejection the *)
 (* walk continues from the specification's state (report and go on).        *)
+(* (1) and (3) and "model_retained" are CONFORMANCE of the code to the      *)
+(* model (cache policy); the property C14 itself is (2) and                 *)
+(* "memory_retained".  The orchestrator reports the former as model drift,  *)
+(* never as a violation of C14 (a different but sound cache policy is not a *)
+(* defect).                                                                 *)
 (***************************************************************************)
 EXTENDS Naturals, Integers, FiniteSets, Sequences, TLC, Json, IOUtils, SequencesExt
 
@@ -70,9 +75,11 @@ Step ==
      THEN st' = A!InitSt /\ UNCHANGED <<nops, nbad>>
      ELSE IF ev.e = "aend"
      THEN /\ st' = st /\ nops' = nops + 1
-          /\ IF ev.live = 0 /\ A!NothingRetained(st) /\ A!Live(st) = {} /\ DOMAIN st.heap = {}
-             THEN nbad' = nbad
-             ELSE PrintT(<<"VFAIL", l, "end", {"memory_retained"}>>) /\ nbad' = nbad + 1
+          /\ LET f == (IF ev.live = 0 THEN {} ELSE {"memory_retained"})                       \* observed: heap blocks still live
+                      \cup (IF A!NothingRetained(st) /\ A!Live(st) = {} /\ DOMAIN st.heap = {}
+                            THEN {} ELSE {"model_retained"})                                  \* the model's own heap (conformance)
+             IN IF f = {} THEN nbad' = nbad
+                ELSE PrintT(<<"VFAIL", l, "end", f>>) /\ nbad' = nbad + 1
      ELSE IF ev.e = "crash"
      THEN PrintT(<<"VCRASH", l, ev.sig, ev.code>>) /\ nbad' = nbad + 1 /\ UNCHANGED <<st, nops>>
      ELSE UNCHANGED <<st, nops, nbad>>
